@@ -383,7 +383,7 @@ pub fn run(ctx: &mut Ctx) {
     ctx.assume("'Reached coset table limit' is a documented discard; subgroup words only use existing generator numbers");
     crate::props::run_regressions(ctx, "C05");
     ctx.layer("exhaustive");
-    let dsets: Vec<DS> = { let mut v = dsets_up_to(2, t.pick(6, 7)); v.extend(dsets_up_to(3, t.pick(3, 4))); v };
+    let dsets: Vec<DS> = { let mut v = dsets_up_to(2, t.pick(6, 7)); v.extend(dsets_up_to(3, t.pick(3, 4))); v.extend(dsets_up_to(4, 3)); v.extend(dsets_up_to(5, 2)); v };
     let mut cases: Vec<CovCase> = vec![];
     let mut complete = true;
     for ds in &dsets {
